@@ -74,11 +74,15 @@ func c13Run(o *common.Out, id string, nkeys, instances int, updates [][]int) {
 	keys := make([]string, nkeys)
 	for i := range keys {
 		keys[i] = fmt.Sprintf("key-%d", i*7919+len(updates))
-		switch i % 7 {
-		case 3: // arguments whose rendering is longer than a kilobyte (around 1 KiB and well beyond), between ordinary ones
+		k := i % 7
+		if i >= 14 && k != 6 {
+			k = 0 // a few long keys per history are enough (the model hashes them byte by byte)
+		}
+		switch k {
+		case 3: // arguments whose rendering is longer than a kilobyte (around 1 KiB and beyond), between ordinary ones
 			keys[i] += strings.Repeat("x", 1000+i%30)
 		case 5:
-			keys[i] += strings.Repeat("long-argument-", 300)
+			keys[i] += strings.Repeat("long-argument-", 100)
 		case 6:
 			keys[i] = "" // and no argument text at all
 		}
